@@ -503,12 +503,22 @@ structure Cursor where
 /-- `size_hint` of all four: `self.input.len() - self.start` -/
 def sizeHint (c : Cursor) : Res Int := ckUsize (c.len - c.pos)
 
-/-- `Split::next`: `found` = offset of the pattern in `input[start..]` (if any) -/
+/-- `Split::next` (since e1818ae): `found` = offset of the match in `input[start..]` (if any); when
+nothing is found the last part is yielded and `start = len + 1` -/
 def splitNext (c : Cursor) (patLen : Int) (found : Option Int) : Option Cursor :=
   if c.pos ≤ c.len then
-    let e := match found with | some k => c.pos + k | none => c.len
-    some { c with pos := e + patLen }
+    match found with
+    | some k => some { c with pos := c.pos + k + patLen }
+    | none => some { c with pos := c.len + 1 }
   else none
+
+/-- byte length of the UTF-8 character that starts with byte `b` (`char::len_utf8`) -/
+def utf8Len (b : Nat) : Nat := if b < 128 then 1 else if b < 224 then 2 else if b < 240 then 3 else 4
+
+/-- what `Split::next` searches for: a non-empty pattern with `str::find`; an empty pattern matches
+at `start` the first time and afterwards at the next character boundary (so it terminates) -/
+def splitFind (pat rest : List Nat) (started : Bool) : Option Nat :=
+  if pat.isEmpty then (if started then rest.head?.map utf8Len else some 0) else findSub pat rest
 
 /-- `Lines::next`: `found` = offset of `\n` in the rest; `cr` = preceded by `\r` -/
 def linesNext (c : Cursor) (found : Option (Int × Bool)) : Option Cursor :=
@@ -529,15 +539,17 @@ def charIndicesNext (c : Cursor) (g : Int) : Option Cursor :=
 /-- executable `Split` over byte lists, `steps` calls of `next` then `size_hint`
 (outputs: the yielded pieces as (start, end) and the final size_hint) -/
 def splitRunH (hint : Cursor → Res Int) (input pat : List Nat) :
-    Nat → Cursor → List (Int × Int) → List (Int × Int) × Res Int
-  | 0, c, acc => (acc.reverse, hint c)
-  | n + 1, c, acc =>
-    let found := (findSub pat (input.drop c.pos.toNat)).map Int.ofNat
+    Bool → Nat → Cursor → List (Int × Int) → List (Int × Int) × Res Int
+  | _, 0, c, acc => (acc.reverse, hint c)
+  | started, n + 1, c, acc =>
+    let found := (splitFind pat (input.drop c.pos.toNat) started).map Int.ofNat
     match splitNext c pat.length found with
     | none => (acc.reverse, hint c)
-    | some c' => splitRunH hint input pat n c' ((c.pos, c'.pos - pat.length) :: acc)
+    | some c' =>
+      let e := match found with | some k => c.pos + k | none => c.len
+      splitRunH hint input pat true n c' ((c.pos, e) :: acc)
 
-def splitRun := splitRunH sizeHint
+def splitRun (input pat : List Nat) := splitRunH sizeHint input pat false
 
 def linesRunH (hint : Cursor → Res Int) (input : List Nat) :
     Nat → Cursor → List (Int × Int) → List (Int × Int) × Res Int
